@@ -120,6 +120,8 @@ def gen_config(r, d, k):
         boards.append(bd)
     trains = [{"id": next(names), "dcc": r.range(1, 0x27) * 256 + r.range(1, 255), "peripherals": [next(names) for _ in range(r.choice([0, 1, 2]))]}
               for _ in range(r.choice([0, 1, 2, 3]))]
+    for t in trains:           # ids of which one is the beginning of the other (an exact comparison tells them apart)
+        if len(t["peripherals"]) == 2 and r.chance(1, 2): t["peripherals"][1] = t["peripherals"][0] + "_r"
     write_config(d, boards, trains)
 
 # ------------------------------------------------------------------ state abstraction lines
@@ -140,8 +142,10 @@ def parse_state(lines):
         elif k == "bper": cur["ports"].append((int(t[3]), int(t[4])))
         elif k == "bseg": cur["segnum"].append(int(t[3]))
         elif k == "asp": s["aspect"].append(t[2])
-        elif k == "train": s["trains"].append({"id": t[2], "dcc": (int(t[3]), int(t[4]), int(t[5]))})
-        elif k == "tper": s["tper"].append(t[2])
+        elif k == "train": s["trains"].append({"id": t[2], "dcc": (int(t[3]), int(t[4]), int(t[5]))}); s.setdefault("tper_of", {})[t[2]] = []
+        elif k == "tper":
+            s["tper"].append(t[2])
+            if s["trains"]: s.setdefault("tper_of", {}).setdefault(s["trains"][-1]["id"], []).append(t[2])
         elif k == "pb": s["point"].append(t[2]); s["pointb"].append(t[2])
         elif k == "pd": s["point"].append(t[2])
         elif k == "sb": s["signal"].append(t[2]); s["signalb"].append(t[2])
@@ -217,10 +221,13 @@ def gen_gets(r, info, full):
         others = [i for i in info["all"] if i not in known]
         if others: L.append("c17get %s s:%s" % (g, r.choice(others)))
         L.append("c17get %s %s" % (g, r.choice(unknown)))
+        for i in dict.fromkeys(pick[:2]):
+            for near in (i + hx("X"), i + hx("_r"), i[:-2]):           # a known id extended / cut by one character
+                if near and near not in info["all"]: L.append("c17get %s s:%s" % (g, near))
         L.append("c17get %s null" % g)
     for t in info["train"] + ["nosuch"]:
         tid = t if t != "nosuch" else hx("nosuch")
-        for p in (info["tper"][:3] + [hx("nosuch")]):
+        for p in (info["tper"][:3] + [hx("nosuch")] + [q + hx("X") for q in info["tper"][:2]] + [q[:-2] for q in info["tper"][:2] if len(q) > 2]):
             L.append("c17get train_peripheral_state s:%s s:%s" % (tid, p))
     L += ["c17get train_peripheral_state null s:%s" % hx("x"), "c17get train_peripheral_state s:%s null" % (info["train"][0] if info["train"] else hx("x")),
           "c17get train_peripheral_state null null"]
@@ -418,6 +425,14 @@ def oracle(ev, info):
             t = m.split()
             if t[0] == "s" and t[1] in FLAGS: flag = t[2]
         cls = "notknown" if flag == "0" else "result"
+        # an id that names nothing of the queried category must come back with its flag false (for the two-argument train
+        # peripheral getter: whenever the train or the peripheral is not one of that train's)
+        if g in STRG and ac == "unknown" and flag == "1":
+            V.append(("getter.%s.unknown.reported-known" % g, {"call": e["hdr"], "gi": [e["gi"]], "meaning": "the queried id is not configured (for this category) but the result says known / available"}))
+        if g == "train_peripheral_state" and flag == "1":
+            a = e["hdr"].split()
+            if len(a) > 2 and a[1].startswith("s:") and a[2].startswith("s:") and a[2][2:] not in info.get("tper_of", {}).get(a[1][2:], ()):
+                V.append(("getter.train_peripheral_state.unknown.reported-known", {"call": e["hdr"], "gi": [e["gi"]], "meaning": "the train has no peripheral with this id but the result says available"}))
         und = [m.split()[1] for m in e["m"] if m.endswith(" undef")]
         own = []
         for x in und:
